@@ -265,14 +265,14 @@ package transform
 //@ macro isSetType(t RType) bool = kind(t) == Map && elem(t) == global("emptyStructType")
 //@ func transform.(*SetSliceMangler).Mangle(m, sf) (out, err)
 //@   props C10
-//@   safety C16
+//@   safety C16 C10
 //@   requires sf.Type != nil
 //@   ensures C10_one_field_same_name: err == nil && len(out) == 1 && out[0].Name == sf.Name
 //@        && out[0].Type == ite(isSetType(sf.Type), sliceOf(keyT(sf.Type)), sf.Type)
 
 //@ func transform.(*SetSliceMangler).Unmangle(m, sf, vs) (v, err)
 //@   props C10
-//@   safety C16
+//@   safety C16 C10
 //@   requires sf.Type != nil && len(vs) == 1 && valid(vs[0].Value) && vtype(vs[0].Value) != nil
 //@   requires wf_package_initialised: valid(global("emptyStructValue")) && vtype(global("emptyStructValue")) == global("emptyStructType") && global("emptyStructType") != nil
 //@   modifies rh
@@ -290,7 +290,7 @@ package transform
 //@ macro unsetValue(v Val) bool = (kind(vtype(v)) == Ptr || kind(vtype(v)) == Slice || kind(vtype(v)) == Map || kind(vtype(v)) == Interface || kind(vtype(v)) == Chan) && visnil(v)
 //@ func transform.(AnonymousFlattenMangler).unmangleStruct(a, sf, fvs) (out, allNil)
 //@   props C10
-//@   safety C16
+//@   safety C16 C10
 //@   requires sf.Type != nil && kind(sf.Type) == Struct
 //@   requires C10_values_fit_the_fields_of_the_same_name: forall i int, j int :: {fName(sf.Type, i), fvs[j].Field.Name} 0 <= i && i < numField(sf.Type) && 0 <= j && j < len(fvs)
 //@        && fName(sf.Type, i) == fvs[j].Field.Name ==> valid(fvs[j].Value) && vtype(fvs[j].Value) != nil && assignable(vtype(fvs[j].Value), fType(sf.Type, i)) && isExported(fName(sf.Type, i))
@@ -305,7 +305,7 @@ package transform
 
 //@ func transform.(AnonymousFlattenMangler).Unmangle(a, sf, fvs) (v, err)
 //@   props C10
-//@   safety C16
+//@   safety C16 C10
 //@   requires sf.Type != nil
 //@   requires C10_one_value_for_a_field_that_was_not_hoisted: (!sf.Anonymous || (kind(sf.Type) != Ptr && kind(sf.Type) != Struct)) ==> len(fvs) == 1
 //@   requires C10_embedded_pointers_point_to_structs: sf.Anonymous && kind(sf.Type) == Ptr ==> elem(sf.Type) != nil && kind(elem(sf.Type)) == Struct
